@@ -13,6 +13,8 @@
 //!   slice <eng|mod> <h> <c> <sval>*   `(node-sum-<v> REF a..)`: a host fn `Fn(&mut SELF, &[isize], isize)` registered through
 //!                             Engine::register_fn / BuiltInModule::register_fn (hand-written wrappers of register_fn.rs)
 //!   mkstruct <sval>*          constructor + getters of a struct registered the way `#[derive(Steel)]` does  -> ok list:[..] | err:<kind>
+//!   dstruct <T|N|V|W><mask> <sval>* constructor + every accessor of a struct / enum variant registered through the real
+//!                             #[derive(Steel)] with #[steel(ignore)] on the fields of <mask>   -> ok 0=<sval|none>;..;3=.. | err:<kind>
 //!   copy places: global closure list vector mvector hashmap box struct nested promise param hashset thread restargs cont
 //!   reset                     fresh engine
 //!
@@ -357,6 +359,186 @@ impl HV for Rec {
 }
 
 // ------------------------------------------------------------------------------------------------
+// structs and enums registered through the REAL `#[derive(Steel)]` (crates/steel-derive), constructors + getters, with
+// `#[steel(ignore)]` on every subset of the four fields (GENERATED block: T<mask> tuple structs, N<mask> named
+// structs, EV::V<mask> tuple variants, EW::W<mask> named variants; mask digit k = 1: field k is ignored)
+mod derived {
+    use steel_derive::Steel;
+    #[derive(Clone, Debug, Steel, PartialEq)]
+    #[steel(getters, constructors)]
+    pub struct T0000(pub i32, pub String, pub Vec<u8>, pub Option<bool>);
+    #[derive(Clone, Debug, Steel, PartialEq)]
+    #[steel(getters, constructors)]
+    pub struct N0000 { pub a: i32, pub b: String, pub c: Vec<u8>, pub d: Option<bool> }
+    #[derive(Clone, Debug, Steel, PartialEq)]
+    #[steel(getters, constructors)]
+    pub struct T0001(pub i32, pub String, pub Vec<u8>, #[steel(ignore)] pub Option<bool>);
+    #[derive(Clone, Debug, Steel, PartialEq)]
+    #[steel(getters, constructors)]
+    pub struct N0001 { pub a: i32, pub b: String, pub c: Vec<u8>, #[steel(ignore)] pub d: Option<bool> }
+    #[derive(Clone, Debug, Steel, PartialEq)]
+    #[steel(getters, constructors)]
+    pub struct T0010(pub i32, pub String, #[steel(ignore)] pub Vec<u8>, pub Option<bool>);
+    #[derive(Clone, Debug, Steel, PartialEq)]
+    #[steel(getters, constructors)]
+    pub struct N0010 { pub a: i32, pub b: String, #[steel(ignore)] pub c: Vec<u8>, pub d: Option<bool> }
+    #[derive(Clone, Debug, Steel, PartialEq)]
+    #[steel(getters, constructors)]
+    pub struct T0011(pub i32, pub String, #[steel(ignore)] pub Vec<u8>, #[steel(ignore)] pub Option<bool>);
+    #[derive(Clone, Debug, Steel, PartialEq)]
+    #[steel(getters, constructors)]
+    pub struct N0011 { pub a: i32, pub b: String, #[steel(ignore)] pub c: Vec<u8>, #[steel(ignore)] pub d: Option<bool> }
+    #[derive(Clone, Debug, Steel, PartialEq)]
+    #[steel(getters, constructors)]
+    pub struct T0100(pub i32, #[steel(ignore)] pub String, pub Vec<u8>, pub Option<bool>);
+    #[derive(Clone, Debug, Steel, PartialEq)]
+    #[steel(getters, constructors)]
+    pub struct N0100 { pub a: i32, #[steel(ignore)] pub b: String, pub c: Vec<u8>, pub d: Option<bool> }
+    #[derive(Clone, Debug, Steel, PartialEq)]
+    #[steel(getters, constructors)]
+    pub struct T0101(pub i32, #[steel(ignore)] pub String, pub Vec<u8>, #[steel(ignore)] pub Option<bool>);
+    #[derive(Clone, Debug, Steel, PartialEq)]
+    #[steel(getters, constructors)]
+    pub struct N0101 { pub a: i32, #[steel(ignore)] pub b: String, pub c: Vec<u8>, #[steel(ignore)] pub d: Option<bool> }
+    #[derive(Clone, Debug, Steel, PartialEq)]
+    #[steel(getters, constructors)]
+    pub struct T0110(pub i32, #[steel(ignore)] pub String, #[steel(ignore)] pub Vec<u8>, pub Option<bool>);
+    #[derive(Clone, Debug, Steel, PartialEq)]
+    #[steel(getters, constructors)]
+    pub struct N0110 { pub a: i32, #[steel(ignore)] pub b: String, #[steel(ignore)] pub c: Vec<u8>, pub d: Option<bool> }
+    #[derive(Clone, Debug, Steel, PartialEq)]
+    #[steel(getters, constructors)]
+    pub struct T0111(pub i32, #[steel(ignore)] pub String, #[steel(ignore)] pub Vec<u8>, #[steel(ignore)] pub Option<bool>);
+    #[derive(Clone, Debug, Steel, PartialEq)]
+    #[steel(getters, constructors)]
+    pub struct N0111 { pub a: i32, #[steel(ignore)] pub b: String, #[steel(ignore)] pub c: Vec<u8>, #[steel(ignore)] pub d: Option<bool> }
+    #[derive(Clone, Debug, Steel, PartialEq)]
+    #[steel(getters, constructors)]
+    pub struct T1000(#[steel(ignore)] pub i32, pub String, pub Vec<u8>, pub Option<bool>);
+    #[derive(Clone, Debug, Steel, PartialEq)]
+    #[steel(getters, constructors)]
+    pub struct N1000 { #[steel(ignore)] pub a: i32, pub b: String, pub c: Vec<u8>, pub d: Option<bool> }
+    #[derive(Clone, Debug, Steel, PartialEq)]
+    #[steel(getters, constructors)]
+    pub struct T1001(#[steel(ignore)] pub i32, pub String, pub Vec<u8>, #[steel(ignore)] pub Option<bool>);
+    #[derive(Clone, Debug, Steel, PartialEq)]
+    #[steel(getters, constructors)]
+    pub struct N1001 { #[steel(ignore)] pub a: i32, pub b: String, pub c: Vec<u8>, #[steel(ignore)] pub d: Option<bool> }
+    #[derive(Clone, Debug, Steel, PartialEq)]
+    #[steel(getters, constructors)]
+    pub struct T1010(#[steel(ignore)] pub i32, pub String, #[steel(ignore)] pub Vec<u8>, pub Option<bool>);
+    #[derive(Clone, Debug, Steel, PartialEq)]
+    #[steel(getters, constructors)]
+    pub struct N1010 { #[steel(ignore)] pub a: i32, pub b: String, #[steel(ignore)] pub c: Vec<u8>, pub d: Option<bool> }
+    #[derive(Clone, Debug, Steel, PartialEq)]
+    #[steel(getters, constructors)]
+    pub struct T1011(#[steel(ignore)] pub i32, pub String, #[steel(ignore)] pub Vec<u8>, #[steel(ignore)] pub Option<bool>);
+    #[derive(Clone, Debug, Steel, PartialEq)]
+    #[steel(getters, constructors)]
+    pub struct N1011 { #[steel(ignore)] pub a: i32, pub b: String, #[steel(ignore)] pub c: Vec<u8>, #[steel(ignore)] pub d: Option<bool> }
+    #[derive(Clone, Debug, Steel, PartialEq)]
+    #[steel(getters, constructors)]
+    pub struct T1100(#[steel(ignore)] pub i32, #[steel(ignore)] pub String, pub Vec<u8>, pub Option<bool>);
+    #[derive(Clone, Debug, Steel, PartialEq)]
+    #[steel(getters, constructors)]
+    pub struct N1100 { #[steel(ignore)] pub a: i32, #[steel(ignore)] pub b: String, pub c: Vec<u8>, pub d: Option<bool> }
+    #[derive(Clone, Debug, Steel, PartialEq)]
+    #[steel(getters, constructors)]
+    pub struct T1101(#[steel(ignore)] pub i32, #[steel(ignore)] pub String, pub Vec<u8>, #[steel(ignore)] pub Option<bool>);
+    #[derive(Clone, Debug, Steel, PartialEq)]
+    #[steel(getters, constructors)]
+    pub struct N1101 { #[steel(ignore)] pub a: i32, #[steel(ignore)] pub b: String, pub c: Vec<u8>, #[steel(ignore)] pub d: Option<bool> }
+    #[derive(Clone, Debug, Steel, PartialEq)]
+    #[steel(getters, constructors)]
+    pub struct T1110(#[steel(ignore)] pub i32, #[steel(ignore)] pub String, #[steel(ignore)] pub Vec<u8>, pub Option<bool>);
+    #[derive(Clone, Debug, Steel, PartialEq)]
+    #[steel(getters, constructors)]
+    pub struct N1110 { #[steel(ignore)] pub a: i32, #[steel(ignore)] pub b: String, #[steel(ignore)] pub c: Vec<u8>, pub d: Option<bool> }
+    #[derive(Clone, Debug, Steel, PartialEq)]
+    #[steel(getters, constructors)]
+    pub struct T1111(#[steel(ignore)] pub i32, #[steel(ignore)] pub String, #[steel(ignore)] pub Vec<u8>, #[steel(ignore)] pub Option<bool>);
+    #[derive(Clone, Debug, Steel, PartialEq)]
+    #[steel(getters, constructors)]
+    pub struct N1111 { #[steel(ignore)] pub a: i32, #[steel(ignore)] pub b: String, #[steel(ignore)] pub c: Vec<u8>, #[steel(ignore)] pub d: Option<bool> }
+    #[derive(Clone, Debug, Steel, PartialEq)]
+    #[steel(getters, constructors)]
+    pub enum EV {
+        V0000(i32, String, Vec<u8>, Option<bool>),
+        V0001(i32, String, Vec<u8>, #[steel(ignore)] Option<bool>),
+        V0010(i32, String, #[steel(ignore)] Vec<u8>, Option<bool>),
+        V0011(i32, String, #[steel(ignore)] Vec<u8>, #[steel(ignore)] Option<bool>),
+        V0100(i32, #[steel(ignore)] String, Vec<u8>, Option<bool>),
+        V0101(i32, #[steel(ignore)] String, Vec<u8>, #[steel(ignore)] Option<bool>),
+        V0110(i32, #[steel(ignore)] String, #[steel(ignore)] Vec<u8>, Option<bool>),
+        V0111(i32, #[steel(ignore)] String, #[steel(ignore)] Vec<u8>, #[steel(ignore)] Option<bool>),
+        V1000(#[steel(ignore)] i32, String, Vec<u8>, Option<bool>),
+        V1001(#[steel(ignore)] i32, String, Vec<u8>, #[steel(ignore)] Option<bool>),
+        V1010(#[steel(ignore)] i32, String, #[steel(ignore)] Vec<u8>, Option<bool>),
+        V1011(#[steel(ignore)] i32, String, #[steel(ignore)] Vec<u8>, #[steel(ignore)] Option<bool>),
+        V1100(#[steel(ignore)] i32, #[steel(ignore)] String, Vec<u8>, Option<bool>),
+        V1101(#[steel(ignore)] i32, #[steel(ignore)] String, Vec<u8>, #[steel(ignore)] Option<bool>),
+        V1110(#[steel(ignore)] i32, #[steel(ignore)] String, #[steel(ignore)] Vec<u8>, Option<bool>),
+        V1111(#[steel(ignore)] i32, #[steel(ignore)] String, #[steel(ignore)] Vec<u8>, #[steel(ignore)] Option<bool>),
+    }
+    #[derive(Clone, Debug, Steel, PartialEq)]
+    #[steel(getters, constructors)]
+    pub enum EW {
+        W0000 { a: i32, b: String, c: Vec<u8>, d: Option<bool> },
+        W0001 { a: i32, b: String, c: Vec<u8>, #[steel(ignore)] d: Option<bool> },
+        W0010 { a: i32, b: String, #[steel(ignore)] c: Vec<u8>, d: Option<bool> },
+        W0011 { a: i32, b: String, #[steel(ignore)] c: Vec<u8>, #[steel(ignore)] d: Option<bool> },
+        W0100 { a: i32, #[steel(ignore)] b: String, c: Vec<u8>, d: Option<bool> },
+        W0101 { a: i32, #[steel(ignore)] b: String, c: Vec<u8>, #[steel(ignore)] d: Option<bool> },
+        W0110 { a: i32, #[steel(ignore)] b: String, #[steel(ignore)] c: Vec<u8>, d: Option<bool> },
+        W0111 { a: i32, #[steel(ignore)] b: String, #[steel(ignore)] c: Vec<u8>, #[steel(ignore)] d: Option<bool> },
+        W1000 { #[steel(ignore)] a: i32, b: String, c: Vec<u8>, d: Option<bool> },
+        W1001 { #[steel(ignore)] a: i32, b: String, c: Vec<u8>, #[steel(ignore)] d: Option<bool> },
+        W1010 { #[steel(ignore)] a: i32, b: String, #[steel(ignore)] c: Vec<u8>, d: Option<bool> },
+        W1011 { #[steel(ignore)] a: i32, b: String, #[steel(ignore)] c: Vec<u8>, #[steel(ignore)] d: Option<bool> },
+        W1100 { #[steel(ignore)] a: i32, #[steel(ignore)] b: String, c: Vec<u8>, d: Option<bool> },
+        W1101 { #[steel(ignore)] a: i32, #[steel(ignore)] b: String, c: Vec<u8>, #[steel(ignore)] d: Option<bool> },
+        W1110 { #[steel(ignore)] a: i32, #[steel(ignore)] b: String, #[steel(ignore)] c: Vec<u8>, d: Option<bool> },
+        W1111 { #[steel(ignore)] a: i32, #[steel(ignore)] b: String, #[steel(ignore)] c: Vec<u8>, #[steel(ignore)] d: Option<bool> },
+    }
+    pub fn register(m: &mut steel::steel_vm::builtin::BuiltInModule) {
+        T0000::register_type(m);
+        N0000::register_type(m);
+        T0001::register_type(m);
+        N0001::register_type(m);
+        T0010::register_type(m);
+        N0010::register_type(m);
+        T0011::register_type(m);
+        N0011::register_type(m);
+        T0100::register_type(m);
+        N0100::register_type(m);
+        T0101::register_type(m);
+        N0101::register_type(m);
+        T0110::register_type(m);
+        N0110::register_type(m);
+        T0111::register_type(m);
+        N0111::register_type(m);
+        T1000::register_type(m);
+        N1000::register_type(m);
+        T1001::register_type(m);
+        N1001::register_type(m);
+        T1010::register_type(m);
+        N1010::register_type(m);
+        T1011::register_type(m);
+        N1011::register_type(m);
+        T1100::register_type(m);
+        N1100::register_type(m);
+        T1101::register_type(m);
+        N1101::register_type(m);
+        T1110::register_type(m);
+        N1110::register_type(m);
+        T1111::register_type(m);
+        N1111::register_type(m);
+        EV::register_enum_variants(m);
+        EW::register_enum_variants(m);
+    }
+}
+
+// ------------------------------------------------------------------------------------------------
 // script values: printing a SteelVal, and steel source for an <sval>
 fn show_sv(v: &SteelVal) -> String {
     match v {
@@ -668,6 +850,7 @@ fn new_engine(tab: &mut HashMap<String, String>) -> Engine {
     m.register_fn("Rec2-name", |value: &Rec2| value.name.clone().into_steelval());
     m.register_fn("Rec2-tags", |value: &Rec2| value.tags.clone().into_steelval());
     m.register_fn("Rec2-opt", |value: &Rec2| value.opt.clone().into_steelval());
+    derived::register(&mut m);
     e.register_module(m);
     e.run("(require-builtin c20/mod)").unwrap();
     e.run("(struct Holder (item))").unwrap();
@@ -1030,6 +1213,41 @@ fn one(st: &mut St, engine: &mut Engine, toks: &[&str], depth: usize) -> String 
                 Ok(v) => format!("ok {}", show_sv(&v)),
                 Err(e) => e,
             }
+        }
+        "dstruct" if toks.len() >= 2 && toks[1].len() == 5 && matches!(&toks[1][..1], "T" | "N" | "V" | "W") => {
+            // dstruct <T|N|V|W><mask> <sval>*: constructor generated by #[derive(Steel)], then every accessor name a
+            // script could try for the four declared positions -> ok 0=<sval|none|err:..>;1=..;2=..;3=..
+            let ty = toks[1];
+            let (kind, mask) = (&ty[..1], &ty[1..]);
+            if !mask.chars().all(|c| c == '0' || c == '1') {
+                return "bad parse".into();
+            }
+            let base = match kind {
+                "V" => format!("EV-{}", ty),
+                "W" => format!("EW-{}", ty),
+                _ => ty.to_string(),
+            };
+            let mut srcs = Vec::new();
+            for t in &toks[2..] {
+                let mut p = P::new(t);
+                match sv_source(&mut p) {
+                    Some(s) if p.done() => srcs.push(s),
+                    _ => return "bad parse".into(),
+                }
+            }
+            if let Err(e) = run_class(engine, format!("(define DV ({} {}))", base, srcs.join(" "))) {
+                return e;
+            }
+            let mut parts = Vec::new();
+            for k in 0..4 {
+                let acc = if kind == "T" || kind == "V" { format!("{}-{}", base, k) } else { format!("{}-{}", base, ["a", "b", "c", "d"][k]) };
+                parts.push(match run_class(engine, format!("({} DV)", acc)) {
+                    Ok(v) => format!("{}={}", k, show_sv(&v)),
+                    Err(e) if e == "err:free-id" => format!("{}=none", k),
+                    Err(e) => format!("{}={}", k, e),
+                });
+            }
+            format!("ok {}", parts.join(";"))
         }
         "threaduse" => {
             // threaduse <h> <c>: another thread starts a slow host call on the handle (inside the call)
